@@ -89,6 +89,49 @@ def lemmas(idx):
                             R = mmul(mmul(Rs[0], Rs[1]), Rs[2]) if not ex else mmul(mmul(Rs[2], Rs[1]), Rs[0])
                             add(cfg, f, vs, ['VI U32 %d' % oi] + [tree_coq(x) for x in ang], st, embed(R, d), 'from_euler %s = product of elementary rotations' % on)
             except SymErr: continue
+    # ---- extraction: to_euler of the 3x3 matrix types, both branches (regular / gimbal) of each of the 24 orders.  The parameters of each order follow
+    # Shoemake's convention and are derived here from the NAME of the variant, not from the table in src/euler.rs: for `ABC` (static frame) the initial
+    # axis is A, the parity is even iff B is the cyclic successor of A, the first axis is repeated iff A = C; the `Ex` variants use the relative frame
+    # with the roles of the first and last letter exchanged.  atan2 is the uninterpreted binary primitive.
+    AX = {'X': 0, 'Y': 1, 'Z': 2}
+    def shoemake(on):
+        ex = on.endswith('Ex'); L = on[:3]; first, mid, last = (L[2], L[1], L[0]) if ex else (L[0], L[1], L[2])
+        i = AX[first]; even = (AX[mid] == (i + 1) % 3); rep = (first == last)
+        j = (i + 1) % 3 if even else (i + 2) % 3; kx = (i + 2) % 3 if even else (i + 1) % 3
+        return i, j, kx, even, rep, not ex
+    def at2(y, x): return '(k_bin FAtan2 %s %s)' % (y, x)
+    for cfg in CFGS:
+        structs = idx.structs(cfg); enums = idx.enums(cfg); orders = enums.get('EulerRot', [])
+        for f in idx.fns(cfg):
+            st = f['self']; tn = tname(st) if st is not None else None
+            if tn not in ('Mat3', 'Mat3A', 'DMat3') or f['name'] != 'to_euler' or f['generic'] or f['by_ref'] or not f['pub'] or not f['has_self'] or len(f['params']) != 1 or f['fid'] is None: continue
+            k = 'f32' if tn != 'DMat3' else 'f64'; VFk = 'VF32' if k == 'f32' else 'VF64'
+            sixteen_eps = '(lit32 1098907648 * lit32 872415232)%K' if k == 'f32' else '(lit64 4625196817309499392 * lit64 4372995238176751616)%K'
+            try:
+                for oi, on in enumerate(orders):
+                    vs = []; m = sym(structs, st, 'm', vs); L = [l[2] for l in tree_leaves(m)]
+                    def col(c, r): return L[c * 3 + r]
+                    i, j, kx, even, rep, static = shoemake(on)
+                    if rep:
+                        rad = '(k_un FSqrt (%s * %s + %s * %s)%%K)' % (col(i, j), col(i, j), col(i, kx), col(i, kx))
+                        reg = [at2(col(i, j), col(i, kx)), at2(rad, col(i, i)), at2(col(j, i), '(- %s)%%K' % col(kx, i))]
+                        gim = [at2('(- %s)%%K' % col(j, kx), col(j, j)), at2(rad, col(i, i)), 'k0']
+                    else:
+                        rad = '(k_un FSqrt (%s * %s + %s * %s)%%K)' % (col(i, i), col(i, i), col(j, i), col(j, i))
+                        reg = [at2(col(kx, j), col(kx, kx)), at2('(- %s)%%K' % col(kx, i), rad), at2(col(j, i), col(i, i))]
+                        gim = [at2('(- %s)%%K' % col(j, kx), col(j, j)), at2('(- %s)%%K' % col(kx, i), rad), 'k0']
+                    for nm, ea, val in (('regular', reg, True), ('gimbal', gim, False)):
+                        e2 = ['(- %s)%%K' % x for x in ea] if even else list(ea)
+                        if not static: e2 = [e2[2], e2[1], e2[0]]
+                        args = alg.kxargs([tree_coq(m)]) + ['VI U32 %d' % oi]
+                        lhs = 'rnorm (run OA tbl 400 %d%%positive [%s])' % (f['fid'], '; '.join(args))
+                        rhs = 'Ok (VT [%s])' % '; '.join('%s (KX %s)' % (VFk, x) for x in e2); hy = (alg.cmp_hyp('FGt', rad, sixteen_eps, val),)
+                        if (cfg, f) not in cover: cover.append((cfg, f))
+                        key = (lhs, rhs, hy)
+                        if key in seen: seen[key].meta['covers'].append('%s:%s' % (cfg, f['key'])); continue
+                        n += 1; lem = alg.AlgLemma('rot_%d' % n, vs, lhs, rhs, hyps=list(hy), tactic=alg.cond_tac(), meta={'cfg': cfg, 'key': f['key'], 'file': f['file'], 'fid': f['fid'], 'did': f['did'], 'covers': ['%s:%s' % (cfg, f['key'])], 'fixed': {'order': on}, 'spec': 'to_euler %s, %s branch (Shoemake extraction)' % (on, nm)})
+                        seen[key] = lem; order.append(lem)
+            except (SymErr, KeyError): continue
     files = {}; nfiles = max(1, (len(order) + 7) // 8)
     for i, lem in enumerate(order): files.setdefault('Rot_%03d' % (i % nfiles), []).append(lem)
     notes['covered_functions'] = len(cover); notes['distinct_statements'] = n; notes['untranslated_count'] = len(notes['untranslated'])
